@@ -61,7 +61,7 @@ PROPS = {
  ),
  'C01': dict(
     modules=['SlacProps.C01', 'SlacProps.C01Text', 'SlacProps.C01Source'], translate=True,
-    srcgen={'SrcParser': 'SlacProps.C01Parser', 'SrcScanner': 'SlacProps.C02Scanner'},
+    srcgen={'SrcParser': 'SlacProps.C01Parser', 'SrcScanner': 'SlacProps.C02Scanner'}, capstones={'SlacProps.FrontSource': ['SrcParser', 'SrcScanner']},
     streams=[
         dict(name='parsekinds', n=n(4, 5), view='okfull', oracle='none'),
         dict(name='parse', n=n(40000, 1000000), view='okfull', oracle='none'),
@@ -77,7 +77,7 @@ PROPS = {
  ),
  'C02': dict(
     modules=['SlacProps.C02', 'SlacProps.C02Float', 'SlacProps.C01Source'], translate=True,
-    srcgen={'SrcScanner': 'SlacProps.C02Scanner'},
+    srcgen={'SrcScanner': 'SlacProps.C02Scanner', 'SrcParser': 'SlacProps.C01Parser'}, capstones={'SlacProps.FrontSource': ['SrcParser', 'SrcScanner']},
     streams=[
         dict(name='scanfrag', n=n(3, 4), view='okfull', oracle='none'),
         dict(name='scan', n=n(60000, 2000000), view='okfull', oracle='none'),
@@ -128,7 +128,7 @@ PROPS = {
  ),
  'C07': dict(
     modules=['SlacProps.C07Parser', 'SlacProps.C07Scanner'], translate=True,
-    srcgen={'SrcParser': 'SlacProps.C01Parser', 'SrcScanner': 'SlacProps.C02Scanner'},
+    srcgen={'SrcParser': 'SlacProps.C01Parser', 'SrcScanner': 'SlacProps.C02Scanner'}, capstones={'SlacProps.FrontSource': ['SrcParser', 'SrcScanner']},
     streams=[
         dict(name='scanfrag', n=n(3, 4), view='class', oracle='none', laws=['no_crash']),
         dict(name='parsekinds', n=n(4, 5), view='class', oracle='none', laws=['no_crash']),
@@ -264,6 +264,7 @@ PROPS = {
  ),
  'C18': dict(
     modules=['SlacProps.C18', 'SlacProps.C18Engine'],
+    srcgen={'SrcStdlib': 'SlacProps.C09Source', 'SrcRegex': 'SlacProps.C18Source'},
     streams=[
         dict(name='re', n=n(20000, 300000), oracle='none'),
         dict(name='relaw', n=n(20000, 300000), model=False, oracle='none', laws=['ok']),
@@ -291,6 +292,7 @@ PROPS = {
  ),
  'C16': dict(
     modules=['SlacProps.C16', 'SlacProps.C16Float', 'SlacProps.C16Rfc', 'SlacProps.C16RfcFloat', 'SlacProps.C16Zone', 'SlacProps.C16ZoneFloat'],
+    srcgen={'SrcTime': 'SlacProps.C16Source'},
     streams=[
         dict(name='tmrange', n=n(0, 1), view='tmrange', oracle='none', laws=['tmrange'], case_timeout=600.0),
         # neighbouring instants (last millisecond of a day, midnight of the next, ...) decoded back to back, days before and after 1970; law on the crate alone
